@@ -10,12 +10,14 @@
     Lock by an Unlock; [mboxes] = producers FeWL 0; put v; FeMS 1, consumers FeWL 1; take;
     FeMS 0, others Lock; Unlock - any number of each, any interleaving.
 
-    NOT claimed: liveness ("no participant sleeps forever") beyond the safety form of
-    no-lost-wake-up below: a responsible thread always exists; that it eventually runs needs
-    scheduler fairness and the mutex's own no-lost-wake-up (C04). *)
+    NOT claimed: liveness ("no participant sleeps forever") as an eventuality: that an enabled
+    step is eventually taken needs scheduler fairness.  Its liveness-free content is proved:
+    a responsible thread always exists (C09_no_lost_wakeup), and the states in which nothing is
+    enabled are characterised exactly (C09_quiescent_*, C09_mailbox_quiescent_*, using the mutex
+    theorem C04_quiescent_no_sleeper of Sync/MutexProofs.v). *)
 From Coq Require Import ZArith List Bool Permutation.
 From MT Require Import Lib.Interleave Sync.SyncModel Sync.FelockBase Sync.FelockOwn Sync.FelockInv
-  Sync.FelockProofs Sync.FelockExchange Sync.FelockMailbox.
+  Sync.FelockProofs Sync.FelockExchange Sync.FelockMailbox Sync.FelockQuiet.
 Import ListNotations.
 Local Open Scope Z_scope.
 
@@ -114,19 +116,40 @@ Theorem C09_no_lost_wakeup : forall pl g st,
 Proof. exact no_lost_wakeup_explicit. Qed.
 Print Assumptions C09_no_lost_wakeup.
 
-(** quiescence corollary 1: in a state where NOTHING is enabled (no call, step, callback
-    step, return, local action of any thread), if status = st and somebody waits on cond[st]
-    then the responsible thread sleeps in the MUTEX queue with continuation "test status st" -
-    the situation that the mutex's own no-lost-wake-up theorem (C04) excludes.  The
-    full/empty layer itself never strands a waiter of disciplined programs. *)
-Theorem C09_quiescent_waiter_blocked_on_mutex : forall pl g st,
+(** quiescent states (NOTHING is enabled: no call, step, callback step, return or local action
+    of any thread) of disciplined programs, using the mutex theorem C04_quiescent_no_sleeper
+    (Sync/MutexProofs.v): the mutex queue is empty, nobody holds the lock, and every thread has
+    either finished its program or sleeps inside a wait_and_lock(st) on cond[st] while the
+    status is NOT st.  So no thread sleeps on the queue of the current status: *)
+Theorem C09_quiescent_no_matching_waiter : forall pl g st,
   discs pl -> greach pl g -> gquiet g -> valid_st st = true ->
-  festat (base g) = st -> getq (base g) (QC (Z.to_nat st)) <> [] ->
-  exists z th, get_thread (base g) z = Some th /\ main th = Susp (ALFe st) /\ In z (mq (base g)).
-Proof. exact quiescent_waiter_blocked_on_mutex. Qed.
-Print Assumptions C09_quiescent_waiter_blocked_on_mutex.
+  festat (base g) = st -> getq (base g) (QC (Z.to_nat st)) = [].
+Proof. exact quiescent_no_matching_waiter. Qed.
+Print Assumptions C09_quiescent_no_matching_waiter.
 
-(** quiescence corollary 2: when every program has finished nobody sleeps: all queues are
+Theorem C09_quiescent_characterisation : forall pl g,
+  discs pl -> greach pl g -> gquiet g ->
+  mq (base g) = [] /\ (forall u, holds (base g) u = false) /\ Z.odd (mword (base g)) = false /\
+  forall t gt th, nth_error (gth g) t = Some gt -> get_thread (base g) t = Some th ->
+    (prog gt = [] /\ pend gt = false /\ main th = Idle) \/
+    (pend gt = true /\ exists st r, prog gt = AFeWL st :: r /\ main th = Susp (ALFe st) /\
+       In t (getq (base g) (QC (Z.to_nat st))) /\ festat (base g) <> st).
+Proof. exact quiescent_characterisation. Qed.
+Print Assumptions C09_quiescent_characterisation.
+
+(** a thread woken from cond[c] resumes at the status test for c: at the push step of
+    mark_and_signal the thread in hand is suspended with continuation "test c", and after the
+    push it is at the top of the lock path of wait_and_lock(c), which it leaves only through
+    the successful test (C09_wait_and_lock_returns_only_via_test) *)
+Theorem C09_woken_resumes_at_test : forall s t th c x s',
+  freach s -> get_thread s t = Some th -> main th = SigPush c ASUnlock x -> fstep s (t, ETick) = Some s' ->
+  (exists thx, get_thread s x = Some thx /\ main thx = Susp (ALFe (Z.of_nat c))) /\
+  exists thx', get_thread s' x = Some thx' /\ main thx' = LockRead (ALFe (Z.of_nat c)) /\
+               fewl_pc (Z.of_nat c) (main thx').
+Proof. exact woken_resumes_at_test. Qed.
+Print Assumptions C09_woken_resumes_at_test.
+
+(** when every program has finished nobody sleeps: all queues are
     empty and the lock is free *)
 Theorem C09_done_queues_empty : forall pl g,
   discs pl -> greach pl g -> all_done g ->
@@ -167,6 +190,33 @@ Theorem C09_exchange_complete : forall pl g,
   Permutation (produced g) (consumed g) /\ slot g = None /\ festat (base g) = 0.
 Proof. exact exchange_complete. Qed.
 Print Assumptions C09_exchange_complete.
+
+(** the only quiescent states of a mailbox program (liveness-free): nobody holds the lock,
+    status and slot agree, and every unfinished thread sleeps at the head of a block of the
+    other kind - status 0: slot empty, consumed = produced, the sleepers are at [FeWL 1; take];
+    status 1: slot full, the sleepers are at [FeWL 0; put v] *)
+Theorem C09_mailbox_quiescent_characterisation : forall pl g,
+  mboxes pl -> greach pl g -> gquiet g ->
+  ((festat (base g) = 0 /\ slot g = None /\ Permutation (produced g) (consumed g)) \/
+   (festat (base g) = 1 /\ exists v, slot g = Some v /\ Permutation (produced g) (v :: consumed g))) /\
+  forall t gt th, nth_error (gth g) t = Some gt -> get_thread (base g) t = Some th ->
+    (prog gt = [] /\ pend gt = false) \/
+    (pend gt = true /\ main th = Susp (ALFe (1 - festat (base g))) /\
+     In t (getq (base g) (QC (Z.to_nat (1 - festat (base g))))) /\
+     ((festat (base g) = 0 /\ exists r, prog gt = AFeWL 1 :: ATake :: r) \/
+      (festat (base g) = 1 /\ exists v r, prog gt = AFeWL 0 :: APut v :: r))).
+Proof. exact mailbox_quiescent_characterisation. Qed.
+Print Assumptions C09_mailbox_quiescent_characterisation.
+
+(** hence, when every thread is a pure producer, consumer or plain locker and there are as
+    many takes as puts, the only quiescent state is the final one: a run can stop only when
+    every produced item has been consumed and everybody is done (no participant is left asleep;
+    that a run does stop is liveness and not claimed) *)
+Theorem C09_mailbox_quiescent_is_final : forall pl g,
+  mboxes pl -> (forall p, In p pl -> pure p) -> total_puts pl = total_takes pl ->
+  greach pl g -> gquiet g -> all_done g.
+Proof. exact mailbox_quiescent_is_final. Qed.
+Print Assumptions C09_mailbox_quiescent_is_final.
 
 (* ------------------------------------------------------------------------------------------ *)
 (** non-vacuity: concrete reachable states (deterministic scheduler [auto_run], vm_compute) *)
@@ -245,3 +295,26 @@ Example ex_stranded_sibling :
   map main (thr (base g)) = [Idle; Susp (ALFe 1); Idle] /\
   map prog (gth g) = [[]; [AFeWL 1; AFeMS 0]; []].
 Proof. vm_compute. repeat split; reflexivity. Qed.
+
+(** a quiescent NON-final state of a mailbox program (more takes than puts): two consumers,
+    one producer; the run stops with status 0, slot empty, consumed = produced and the second
+    consumer asleep on cond[1] at its [FeWL 1; take] block - exactly the shape given by
+    C09_mailbox_quiescent_characterisation; [gquiet] is proved for this concrete state *)
+Definition pl_short : list (list action) :=
+  [[AFeWL 0; APut 7; AFeMS 1]; [AFeWL 1; ATake; AFeMS 0]; [AFeWL 1; ATake; AFeMS 0]].
+
+Example ex_quiescent_non_final :
+  let g := auto_run 400 [1;2;0]%nat (g0 pl_short) in
+  greach pl_short g /\ gquiet g /\ forallb mbox_out pl_short = true /\
+  festat (base g) = 0 /\ slot g = None /\ produced g = [7] /\ consumed g = [7] /\
+  cqs (base g) = [[]; [2%nat]] /\ mq (base g) = [] /\ mword (base g) = 0 /\
+  map prog (gth g) = [[]; []; [AFeWL 1; ATake; AFeMS 0]] /\
+  map main (thr (base g)) = [Idle; Idle; Susp (ALFe 1)].
+Proof.
+  split; [apply auto_run_reach, g0_reach|]. split; [|vm_compute; repeat split; reflexivity].
+  intros t e.
+  match goal with |- gstep ?G _ = None =>
+    let g' := eval vm_compute in G in replace G with g' by (vm_compute; reflexivity) end.
+  destruct t as [|[|[|t]]]; [| | |destruct t; reflexivity]; destruct e as [| |i|v|]; try reflexivity;
+    try (destruct i as [|[|i]]; reflexivity); cbn; try reflexivity; destruct v; reflexivity.
+Qed.
